@@ -187,7 +187,7 @@ func cmdCheck(verifDir, repoDir string, args []string) int {
 	tGen := time.Since(t0) - tLoad
 	tmp, _ := os.MkdirTemp("", "rtpverify-q")
 	defer os.RemoveAll(tmp)
-	cfg := &solverCfg{quickTO: 20, fallback: 20, seed: seed, workers: (runtime.NumCPU() + 1) / 2, tmp: tmp, keepFiles: keep}
+	cfg := &solverCfg{quickTO: 20, fallback: 60, seed: seed, workers: (runtime.NumCPU() + 1) / 2, tmp: tmp, keepFiles: keep}
 	if tier == "thorough" {
 		cfg.quickTO, cfg.fallback = 60, 120
 	}
@@ -209,6 +209,26 @@ func cmdCheck(verifDir, repoDir string, args []string) int {
 		}
 	}
 	dischargeAll(all, cfg)
+	// second chance: obligations that only timed out are retried with the machine to
+	// themselves (two at a time, longer limits); solver answers under full load are not final
+	var retry []*Obl
+	for _, o := range all {
+		if o.Verdict == "failed-unknown" && !o.shortFirst {
+			retry = append(retry, o)
+		}
+	}
+	if len(retry) > 0 && len(retry) <= 40 {
+		c2 := *cfg
+		c2.workers = 3
+		c2.quickTO, c2.fallback = cfg.quickTO*3, cfg.fallback*2
+		for _, o := range retry {
+			o.Verdict, o.Detail = "", ""
+		}
+		dischargeAll(retry, &c2)
+		for _, o := range retry {
+			o.Detail = "second attempt without load: " + o.Detail
+		}
+	}
 
 	// classify
 	rep := &Report{Prop: prop, Tier: tier, Seed: seed, Start: t0, VerifDir: verifDir, prog: p, frs: frs, known: map[int]bool{}}
